@@ -28,6 +28,13 @@ CHECKS["C02"] = (
     "DESIGN.md 2/C02, 1.2-1.3",
 )
 
+CHECKS["C03"] = (
+    "bounded exhaustive exploration of the real printer (inputs: document automaton + corpus; histories: all dict-edit sequences to depth 3/4, unmerged) read back by an independent lexer/structure reader",
+    "Every dictionary produced by loads over S1-S4, root lists and the corpus, and every dictionary reached by any sequence of up to 3 (thorough 4) edits from a 34-operation dict-API alphabet on six initial dictionaries, is printed by the real printer; an independent reader (own lexer + block structure reader) must find exactly the dictionary's objects, keywords and values in order, each in the lexical class my table derives from the raw schemas; dictionaries holding a value without Mapfile representation must be refused. dumps/dump/save are bound to the same result.",
+    "Trusted: mcf/reader.py, mcf/lexexpect.py. Attribute-looking strings on slots whose schema lists no attribute alternative are accepted bare or quoted; strings containing the output quote are excluded as documented.",
+    "DESIGN.md 2/C03, 1.3, 1.5",
+)
+
 NOT_YET = {}
 
 
